@@ -256,3 +256,14 @@ def mc_part(run: Run, prop: str, replay_max=None):
         if recs:
             T.validate(run, recs, f'{prop}_mcreplay_{name}', prop)
             run.sample({'instance': name, 'behaviour_replayed_into_the_code': T.short_hand(recs[0])}, limit=8)
+    if prop == 'C07':
+        # every hand ends: <>(hand over) under weak fairness of Next, on the smallest instance (liveness checking is costly)
+        inst = instance('kuhn', 'quick', random.Random(run.seed * 17 + 4))
+        inst['keephist'] = False
+        if run.tier == 'quick':
+            inst['cfgs'] = inst['cfgs'][:12]
+        r = run_instance(run, 'kuhn_liveness', inst, emit=False, cfgfile='MC_live.cfg', timeout=3000)
+        if r['violated'] or 'Temporal properties were violated' in r['out']:
+            run.violation('model:Prop_C07_terminates', 'TLC: a behaviour of the model in which the hand never ends: ' + r['out'][-1500:],
+                          {'kind': 'mc', 'instance': 'kuhn_liveness'})
+        run.part('C07_mc_liveness', configs=len(inst['cfgs']), states=r['states'], tlc_wall=r['wall'], property='<>(hand over) under WF(Next)')
